@@ -143,6 +143,48 @@ def worker(case):
             if not p.detached and s != base_sum:
                 viol = ("c09:read-after-%s-differs" % "+".join(word), "after %s: %s ; without: %s" % (word, s, base_sum))
                 break
+        if not viol and case.get("tools"):
+            # the tools' view of the same state: zck_read_header -c -f (per-chunk marks + exit status) and unzck -c
+            import re
+            open(os.path.join(cdir, "f.zck"), "wb").write(disk)
+            tr = core.run_proc([case["tools"]["zck_read_header"], "-c", "-f", "f.zck"], cdir, stdout_path=os.path.join(cdir, "rh.out"))
+            stats["tool_runs"] = stats.get("tool_runs", 0) + 1
+            cs = core.crash_signatures(tr, where="tool:zck_read_header")
+            if cs:
+                viol = (cs[0], "zck_read_header -c -f crashed: %s" % cs)
+            else:
+                txt = open(os.path.join(cdir, "rh.out"), errors="replace").read()
+                marks = []
+                for ln in txt.split("\n"):
+                    m = re.match(r"^\s*(\d+) [0-9a-f]+ [0-9a-f]*\s+\d+\s+\d+\s+\d+(\s+([+!]))?\s*$", ln)
+                    if m:
+                        marks.append({"+": 1, "!": -1, None: 0}[m.group(3)])
+                if p.detached:
+                    want_ok = exp[0] == 1
+                    want_marks = [exp[0]] + [0] * (len(exp) - 1)
+                else:
+                    want_ok = all_good and dok
+                    want_marks = exp if not (all_good and not dok) else [-1] * len(exp)
+                if (tr.rc == 0) != want_ok:
+                    viol = ("c09:tool:read_header-f:verdict:%s" % ("success-on-damage" if tr.rc == 0 else "failure-on-intact"),
+                            "zck_read_header -f exit %s but chunks %s data_ok=%s" % (tr.rc, exp, dok))
+                elif marks and marks != want_marks and tr.rc in (0, 2):
+                    viol = ("c09:tool:read_header-f:marks", "per-chunk marks %s, expected %s" % (marks, want_marks))
+                elif open(os.path.join(cdir, "f.zck"), "rb").read() != disk:
+                    viol = ("c09:tool:read_header-f:modified-file", "zck_read_header -f changed the file")
+            if not viol and not p.detached:
+                ur = core.run_proc([case["tools"]["unzck"], "-c", "f.zck"], cdir, stdout_path=os.path.join(cdir, "un.out"))
+                stats["tool_runs"] = stats.get("tool_runs", 0) + 1
+                cs = core.crash_signatures(ur, where="tool:unzck")
+                lib_ok = (not base_sum["read_error"]) and base_sum["close"] == 1
+                if cs:
+                    viol = (cs[0], "unzck -c crashed: %s" % cs)
+                elif ur.rc == 0 and not (all_good and dok):
+                    viol = ("c09:tool:unzck:success-on-damage", "unzck -c exit 0 but chunks %s data_ok=%s" % (exp, dok))
+                elif ur.rc != 0 and lib_ok and all_good and dok:
+                    viol = ("c09:tool:unzck:failure-on-intact", "unzck -c exit %s on a file every checksum of which matches; stderr=%r" % (ur.rc, ur.stderr[-200:]))
+                elif ur.rc == 0 and hashlib.sha256(open(os.path.join(cdir, "un.out"), "rb").read()).hexdigest()[:16] + ":%d" % os.path.getsize(os.path.join(cdir, "un.out")) != base_sum["bytes"]:
+                    viol = ("c09:tool:unzck:content-differs-from-library-read", "unzck -c output differs from the library's read of the same file")
         if viol:
             keep = True
             return core.verdict(cid, "violated", [viol[0]], stats, detail=viol[1] + " base=%s state=%s" % (case["base"], case["state"]), cdir=cdir, case=case)
@@ -200,9 +242,16 @@ class C09(core.Check):
     worker = staticmethod(worker)
 
     def prepare(self, fl):
-        return {"zh": build.zh(fl["asan"])}
+        return {"zh": build.zh(fl["asan"]), "tools": {t: fl["asan"].tool(t) for t in ("zck_read_header", "unzck")}}
 
     def cases(self, ctx):
+        out = self._cases(ctx)
+        for i, c in enumerate(out):
+            if i % (3 if self.quick else 2) == 0:
+                c["tools"] = ctx["tools"]
+        return out
+
+    def _cases(self, ctx):
         r = core.rng(self.seed, "C09", "state")
         bases = basefiles.small_set(ctx["zh"], self.work, self.seed + 9, n_chunks=(2, 4), piece=(50, 600))
         # uncompressed files whose chunks are all zeros (stale-buffer trap) and a larger file (> one 32 KiB scan block per chunk)
